@@ -396,10 +396,8 @@ pub fn strategy() -> impl Strategy<Value = Case> {
         prop_oneof![2 => Just(0u32), 1 => 0u32..40],
     )
         .prop_map(|((n1, n2), mut steps, log_last, cosets, nvf, queries, pow, slack)| {
-            // keep the trace exponent at honest sizes (the statement is silent about its magnitude)
-            while steps.iter().sum::<u32>() > 28 {
-                steps.pop();
-            }
+            // the statement puts no bound on the trace exponent: up to 56 + 15 here, 87 with the blow-up
+            let _ = &mut steps;
             Base { n1, n2, steps, log_last, cosets, nvf, queries, pow, slack }
         });
     (base, proptest::collection::vec((0u8..FIELDS.len() as u8, any::<u8>(), any::<u8>()).prop_map(|(field, val, idx)| Perturb { field, val, idx }), 0..=2))
@@ -439,4 +437,4 @@ pub fn replay(_ctx: &Ctx, v: &Value) -> Result<Outcome, String> {
     Ok(check(&c))
 }
 
-pub const RULE: &str = "constructively valid configurations (each layout's column counts or 1..=128, 1..=14 FRI steps of 1..=4, last-layer exponent 0..=15, blow-up 1..=16, friendly count, query count 1..=48, PoW bits 20..=50, security level at or below the bound) with 0..2 perturbations out of 24 field classes at boundary values (bound-1, bound, bound+1, 0, 2^16, 2^40, 2^64, 2^128, p-3..p-1), including consistent re-declarations (FRI described for a larger domain; blow-up changed together with all heights; modular security wrap); vector lengths always match n_layers. Oracle: validate(..).is_ok() == pure-integer predicate R8 (never modulo p); a panic counts as not accepted. Non-trivial = any perturbed case or a valid case exactly at the security bound; class = first violated clause; distinct by case hash";
+pub const RULE: &str = "constructively valid configurations (each layout's column counts or 1..=128, 1..=14 FRI steps of 1..=4, last-layer exponent 0..=15, blow-up 1..=16, friendly count, query count 1..=48, PoW bits 20..=50, security level at or below the bound) with 0..2 perturbations out of 24 field classes at boundary values (bound-1, bound, bound+1, 0, 2^16, 2^40, 2^64, 2^128, p-3..p-1), including consistent re-declarations (FRI described for a larger domain; blow-up changed together with all heights; modular security wrap); vector lengths always match n_layers; trace exponents up to 71 (evaluation domains up to 2^87: the statement has no cap, and validate() must not add one). Oracle: validate(..).is_ok() == pure-integer predicate R8 (never modulo p); a panic counts as not accepted. Non-trivial = any perturbed case or a valid case exactly at the security bound; class = first violated clause; distinct by case hash";
